@@ -92,6 +92,8 @@ let () =
   let impl_nb : (n, n list) Hashtbl.t = Hashtbl.create 16 in
   let impl_ent : (n, (n * (n * n)) list) Hashtbl.t = Hashtbl.create 16 in
   let impl_rt : (n, router) Hashtbl.t = Hashtbl.create 16 in
+  let impl_rib : (n, string) Hashtbl.t = Hashtbl.create 16 in
+  let late_pending : (n * string) option ref = ref None in
   (* round counting since the last topology change *)
   let proto = ref false in
   let phys : (n, n list) Hashtbl.t = Hashtbl.create 16 in
@@ -124,14 +126,14 @@ let () =
       (try
       match String.split_on_char ' ' line with
       | "case" :: k :: kind :: _ ->
-          incr ncases; case := k ^ ":" ^ kind; model := []; Hashtbl.reset impl_nb; Hashtbl.reset impl_ent; Hashtbl.reset impl_rt;
+          incr ncases; case := k ^ ":" ^ kind; model := []; Hashtbl.reset impl_nb; Hashtbl.reset impl_ent; Hashtbl.reset impl_rt; Hashtbl.reset impl_rib; late_pending := None;
           clean := true; evc := 0; delivered := false; Hashtbl.reset slots; reset_rounds (); proto := (kind = "proto"); Hashtbl.reset phys;
           Hashtbl.reset tbl_of_dec; Hashtbl.reset tbl_to_dec
       | "node" :: a :: h :: _ -> node_alias a (n_of_dec_raw h)
       | ["ev"; "rup"; i] -> incr evc; apply (RouterUp (n_of_dec i)) true
       | ["ev"; "rdown"; i] ->
           let i = n_of_dec i in
-          incr evc; clean := false; Hashtbl.remove impl_nb i; Hashtbl.remove impl_ent i; Hashtbl.remove impl_rt i;
+          incr evc; clean := false; Hashtbl.remove impl_nb i; Hashtbl.remove impl_ent i; Hashtbl.remove impl_rt i; Hashtbl.remove impl_rib i;
           apply (RouterDown i) true
       | ["ev"; "up"; i; j] -> incr evc; apply (NbrUp (n_of_dec i, n_of_dec j)) true
       | ["ev"; "dead"; i; j] -> incr evc; clean := false; apply (NbrDead (n_of_dec i, n_of_dec j)) true
@@ -140,6 +142,12 @@ let () =
           incr evc;
           apply (Fetch (i, j)) false;
           served i j
+      | ["ev"; "late"; i; j] ->
+          let i = n_of_dec i and j = n_of_dec j in
+          incr evc;
+          late_pending := (match Hashtbl.find_opt impl_rib i with Some prev -> Some (i, prev) | None -> None);
+          let adv = match getr !model j with Some r -> advert r.rrib | None -> [] in
+          apply (LateUpdate (i, j, adv)) false
       | ["ev"; "snap"; j] ->
           let j = n_of_dec j in
           incr evc;
@@ -167,6 +175,13 @@ let () =
           Hashtbl.replace impl_nb i (parse_nb nb);
           Hashtbl.replace impl_ent i (parse_ent ent);
           Hashtbl.replace impl_rt i { self = i; rrib = parse_rib rib; nbrs = parse_nb nb };
+          (* a late ribUpdate on a removed neighbour's object must leave the implementation's RIB exactly as it was *)
+          (match !late_pending with
+           | Some (i', prev) when N.eqb i' i ->
+               late_pending := None;
+               if prev <> rib then oracle "late_update_changed_state" ("router=" ^ dec_of_n i ^ " before=" ^ prev ^ " after=" ^ rib)
+           | _ -> ());
+          Hashtbl.replace impl_rib i rib;
           if !proto then () else begin
           (match getr !model i with
            | None -> diverge "router" "absent" "present"
